@@ -7,6 +7,9 @@ CLAIMED = {
  "C01": ("6/C01", "deterministic simulation: seeded schedules of increments vs ticker / Close / re-acquire report passes, conservation ledger oracle",
          "Seeded search over interleavings of incrementing tasks with the periodic report loop, the root's Close and report-on-reacquire (plain and cached recording reporters, slow-reporter and clock faults, seeded map order and shard placement); per identity the delivered sum must equal the increments applied while the scope was live, no negative delta for non-negative histories, nothing delivered by an idle pass. Exploration: a clean batch is evidence, not proof.",
          "Trusts the shim fidelity (sync, atomics, channels modelled at operation granularity; Go atomics are SC), testing/synctest's fake clock, and the ledger model; yields only at synchronisation operations."),
+ "C02": ("6/C02", "deterministic simulation: seeded schedules of one updater per gauge vs concurrent report passes, latest-value oracle over the recorded history",
+         "Seeded search over interleavings of Update (two atomic stores) with report passes (swap + load) from the ticker, Close and report-on-reacquire; unique bit patterns incl. NaN payloads, infinities, -0, subnormals; every delivered value must have been passed to Update earlier, deliveries never outnumber updates, after updates stop and a complete pass ran the reporter's most recent value is the last update, an idle pass re-delivers nothing. Exploration.",
+         "As C01; pass boundaries are taken from the reporter seam (Flush), not from internals."),
 }
 
 NOT_APPLICABLE = {
